@@ -112,6 +112,38 @@ Definition case_arguments (contact_lang : lang) (allowed : list lang) (base : la
   let '(largs, _) := get_text contact_lang allowed base args tr in
   if Nat.eqb (length largs) (length args) then largs else args.
 
+(* evaluateMessage with an explicit language list (languages <> nil), as send_broadcast calls it *)
+Definition evaluate_message_in (langs : list lang) (base : lang) (m : msg_def) : msg_out :=
+  let '(ltext, txt_lang) := get_text_in langs base [m_text m] (tr_text m) in
+  let '(latts, att_lang) := get_text_in langs base (m_atts m) (tr_atts m) in
+  let '(lqrs, qrs_lang) := get_text_in langs base (m_qrs m) (tr_qrs m) in
+  let t0 := hd [] ltext in
+  let l := if negb (text_empty t0) then txt_lang
+           else match latts with _ :: _ => att_lang
+                | [] => match lqrs with _ :: _ => qrs_lang | [] => nil_lang end
+                end in
+  {| o_text := t0; o_atts := latts; o_qrs := lqrs; o_lang := l |}.
+
+(* SendBroadcastAction.Execute: one content per language, for the flow language followed by the languages the
+   localization has entries for (sorted); each evaluated with the list [language; flow language]; the map keeps
+   the last content written for a language (a repeated language gets the same content) *)
+Definition broadcast_translations (base : lang) (loc_langs : list lang) (m : msg_def)
+  : list (lang * msg_out) :=
+  map (fun l => (l, evaluate_message_in [l; base] base m)) (base :: loc_langs).
+
+Fixpoint text_eqb (a b : text) : bool :=
+  match a, b with
+  | [], [] => true
+  | x :: a', y :: b' => N.eqb x y && text_eqb a' b'
+  | _, _ => false
+  end.
+
+(* SetRunResultAction.Execute: GetText(action uuid, "category", category), blanked when equal to the category *)
+Definition set_run_result_category_localized (contact_lang : lang) (allowed : list lang) (base : lang)
+           (category : text) (tr : translations) : text :=
+  let c := fst (get_text1 contact_lang allowed base category tr) in
+  if text_eqb c category then [] else c.
+
 (* routeToCategory: GetText(category uuid, "name", "") *)
 Definition category_localized (contact_lang : lang) (allowed : list lang) (base : lang)
            (tr : translations) : text :=
